@@ -356,7 +356,15 @@ pub fn lcast_out(n: &lx::Narsese) -> String {
 }
 
 /// Execute an op line's (op, fmt, payload); the value-taking ops rebuild the value from the payload.
+/// no operation may take the harness down: a panic anywhere in the crate's code is an answer (`panic`)
 pub fn exec(op: &str, fmt: &str, payload: &str) -> Result<String, String> {
+    match catch_unwind(AssertUnwindSafe(|| exec_inner(op, fmt, payload))) {
+        Ok(r) => r,
+        Err(_) => Ok("panic".into()),
+    }
+}
+
+fn exec_inner(op: &str, fmt: &str, payload: &str) -> Result<String, String> {
     let mut rd = Rd::new(payload);
     Ok(match op {
         "efmt" => {
@@ -615,9 +623,10 @@ pub fn exec(op: &str, fmt: &str, payload: &str) -> Result<String, String> {
                 "{} {} name={}",
                 if ok { "ok" } else { "err" },
                 ser::term(&t, Mode::Canon),
-                match t.get_atom_name() {
-                    Some(n) => format!("some {}", ser::hs(&n)),
-                    None => "none".into(),
+                match catch_unwind(AssertUnwindSafe(|| t.get_atom_name())) {
+                    Ok(Some(n)) => format!("some {}", ser::hs(&n)),
+                    Ok(None) => "none".into(),
+                    Err(_) => "panic".into(),
                 }
             )
         }
